@@ -5,7 +5,7 @@
 // Op lines (see lean/Driver/C30.lean):
 //   lim <base> <forks> <height>
 //   add <height> <base> <forks> <blFork> <count0> <size0> <entry>*
-//   exp <height> <blocktime> <txHeightOn> <tx>*
+//   exp <height> <blocktime> <txHeightOn> <tx>*   (hdr of a tx: n | g | g<GroupCount>~<Expire>.<...>)
 // The harness *describes* each input transaction (id = Nonce, Size(), GetTxGroup() outcome,
 // blacklisted by construction, GroupCount/Expire/whether Header decodes) and prints what the
 // implementation did with it.  The C30 predicates are evaluated on the implementation's result
@@ -761,7 +761,7 @@ func hdrDesc(tx *types.Transaction) string {
 	}
 	var es []string
 	for _, m := range g.Txs {
-		es = append(es, strconv.FormatInt(m.Expire, 10))
+		es = append(es, fmt.Sprintf("%d~%d", m.GroupCount, m.Expire))
 	}
 	return "g" + strings.Join(es, ".")
 }
@@ -844,8 +844,8 @@ func (w *world) runExpire(c *conf, segs []seg, raw []*types.Transaction, height,
 				kind = "expired-group-kept"
 				if g, _ := s.txs[0].GetTxGroup(); g != nil && len(g.Txs) > 0 {
 					// the members' Header (the 32-byte group hash) happens to parse as a
-					// Transactions message holding a (garbage) transaction: IsExpire takes the
-					// group path over the decoded list
+					// Transactions message holding (garbage) transactions; repaired in /repo
+					// 879d416 unless it passes isPackedGroupOf
 					kind = "expired-group-kept-when-group-hash-parses-as-nonempty-group"
 				} else if g != nil {
 					// empty decoded message: repaired in /repo c2f0f61, must not come back
@@ -893,9 +893,8 @@ func (w *world) buildSegs(c *conf, n int, height, blocktime int64, avoidDecodabl
 				opts[j] = txOpt{expire: w.expireFor(e, height, blocktime, txHeightOn), expired: e && gate}
 			}
 			_, ms := w.newGroup(opts)
-			if g, _ := ms[0].GetTxGroup(); g != nil && len(g.Txs) > 0 && avoidDecodable {
-				out.Stat("exp_regenerated_decodable_group", 1)
-				continue
+			if g, _ := ms[0].GetTxGroup(); g != nil {
+				out.Stat("exp_group_with_decodable_hash", 1)
 			}
 			segs = append(segs, seg{ms, exp && gate})
 			break
@@ -991,9 +990,11 @@ func (w *world) nonEmptyDecodableGroup(expire int64) []*types.Transaction {
 	return g.Txs
 }
 
-// witness: (a) regression of the repaired defect: an expired group whose head hash parses as an
-// *empty* protobuf message must be removed as a whole; (b) the remaining defect: an expired group
-// whose head hash parses as a message with one garbage transaction survives CheckTxExpire.
+// witness: regressions of the two repaired defects — an expired group whose head hash parses (a) as
+// an *empty* protobuf message, (b) as a message with one garbage transaction must be removed as a
+// whole — and (c), differential only, members carrying a *forged* 32-byte Header that decodes as a
+// group of exactly GroupCount members all carrying GroupCount (what isPackedGroupOf accepts; not a
+// valid group since Header is not the group hash, so no predicate).
 func (w *world) witness(c *conf) {
 	single := w.newTx(txOpt{unsigned: true, expire: 5, expired: true})
 	live := w.newTx(txOpt{unsigned: true, expire: 0})
@@ -1003,15 +1004,30 @@ func (w *world) witness(c *conf) {
 	} else {
 		out.Note("no decodable group hash found")
 	}
-	ms := w.nonEmptyDecodableGroup(5)
-	if ms == nil {
+	if ms := w.nonEmptyDecodableGroup(5); ms != nil {
+		segs := []seg{{[]*types.Transaction{single}, true}, {ms, true}, {[]*types.Transaction{live}, false}}
+		w.runExpire(c, segs, nil, 10, 1600000000, "witness_nonempty_decodable_group_hash")
+		out.Sample(fmt.Sprintf("CheckTxExpire(height 10): expired group (Expire=5) whose head hash %x parses as a Transactions message with one garbage transaction is removed as a whole", ms[0].Header))
+	} else {
 		out.Note("ground nonce no longer yields a group hash that decodes as a non-empty group")
 		out.Stat("witness_nonempty_not_reproducible", 1)
+	}
+	// (c) forged header: 0a0e 4002 120a<10 bytes> twice = two members with GroupCount 2, Expire 0
+	member := append([]byte{0x0a, 0x0e, 0x40, 0x02, 0x12, 0x0a}, make([]byte, 10)...)
+	forged := append(append([]byte{}, member...), member...)
+	var dec types.Transactions
+	if err := types.Decode(forged, &dec); err != nil || len(dec.Txs) != 2 || dec.Txs[0].GroupCount != 2 || dec.Txs[1].GroupCount != 2 || len(forged) != 32 {
+		out.Note("forged 32-byte header no longer decodes as a packed group of two")
 		return
 	}
-	segs := []seg{{[]*types.Transaction{single}, true}, {ms, true}, {[]*types.Transaction{live}, false}}
-	w.runExpire(c, segs, nil, 10, 1600000000, "witness_nonempty_decodable_group_hash")
-	out.Sample(fmt.Sprintf("CheckTxExpire(height 10): expired group (Expire=5) with head hash %x kept, because the hash parses as a Transactions message with one garbage transaction (Expire=0)", ms[0].Header))
+	a := w.newTx(txOpt{unsigned: true, expire: 5, expired: true})
+	b := w.newTx(txOpt{unsigned: true, expire: 5, expired: true})
+	for _, t := range []*types.Transaction{a, b} {
+		t.GroupCount = 2
+		t.Header = forged
+	}
+	w.runExpire(c, nil, []*types.Transaction{single, a, b, live}, 10, 1600000000, "forged_header_packed_group")
+	out.Stat("forged_header_is_32_bytes_and_decodes_as_packed_group", 1)
 }
 
 func main() {
